@@ -6,6 +6,7 @@
 # (2) the semantic comparison of C02 (every body reference must reach the matcher/printer created for that
 # very request, otherwise truth values or outputs differ), (3) a count of distinct resources.
 import itertools, random, time
+import os
 import z3
 from .common import *
 from .trees import *
@@ -181,6 +182,16 @@ def symbolic_patterns(B, rep, T, tier):
         configs.append(("len%d-%d-rev" % (la, lb), [("InsensitiveName", lb), ("Name", la)], ALPHA))
         if tier != "quick" or (la, lb) == (3, 1):
             configs.append(("path%d-%d" % (la, lb), [("InsensitivePath", lb), ("Path", la)], ALPHA))
+    # (c) two requests of the SAME kind and different lengths over the glob metacharacters: they can never be the same request,
+    # whatever normal form (unescaping, case folding) the manager derives its cache key from
+    GLOB = "a*?[\\"
+    for la, lb in ([(3, 2), (2, 1)] if tier == "quick" else [(2, 1), (3, 2), (4, 2), (4, 3)]):
+        configs.append(("glob%d-%d" % (la, lb), [("Name", la), ("Name", lb)], GLOB))
+        configs.append(("glob%d-%d-rev" % (la, lb), [("Name", lb), ("Name", la)], GLOB))
+        if tier != "quick" or (la, lb) == (3, 2):
+            configs.append(("iglob%d-%d" % (la, lb), [("InsensitivePath", la), ("InsensitivePath", lb)], GLOB))
+    if os.environ.get("VERIF_C11_ONLY"):
+        configs = [c for c in configs if c[0].startswith(os.environ["VERIF_C11_ONLY"])]
     kw = {"Name": "-name", "InsensitiveName": "-iname", "Path": "-path", "InsensitivePath": "-ipath"}
     for label, reqs, alphabet in configs:
         pats, assume = [], []
@@ -192,6 +203,9 @@ def symbolic_patterns(B, rep, T, tier):
         tree = leaves[0]
         for l in leaves[1:]:
             tree = Adt("Expression", "Operator", [BoxV(Adt("Operator", "Or", [tree, l]), "Rc")])
+        if "glob" in label:
+            total += distinct_matchers(B, rep, label, tree, pats, assume, [kw[k] for k, _ in reqs])
+            continue
         findings, info = cmp(B, "sympat-" + label, tree, "(symbolic patterns %s)" % label, assume_extra=assume)
         total += (info or {}).get("programs", 0)
         for f in findings:
@@ -209,10 +223,58 @@ def symbolic_patterns(B, rep, T, tier):
     return total
 
 
+def distinct_matchers(B, rep, label, tree, pats, assume, kws):
+    """two requests of the same kind whose patterns differ in length: the emitted program must bind two matchers and the two
+    references must reach different ones -- for every value of the pattern characters (glob metacharacters included)"""
+    r = compile_tree(B, tree)
+    r.I.assumptions = list(assume)
+    wrong, n_prog = False, 0
+    for g, v in r.alts:
+        if isinstance(v, Panic) or not is_ok(v):
+            wrong = b_or(wrong, g)
+            continue
+        for g2, ce in flatten_value(v.fields[0]):
+            for g3, items in render_alts(B, r, ce):
+                gg = b_and(g, g2, g3)
+                n_prog += 1
+                try:
+                    data = read_all(items)
+                except ReadError:
+                    wrong = b_or(wrong, gg)
+                    continue
+                probs, bound = scope_analysis(data)
+                uses = set(u for u in sym_uses(data[-1]) if u.startswith("%lf3:match:"))
+                if probs or len([b for b in bound if b.startswith("%lf3:match:")]) != 2 or len(uses) != 2:
+                    wrong = b_or(wrong, gg)
+    res, m = B.solve("sympat-%s:two-matchers" % label, assume, wrong)
+    if res == z3.sat:
+        ps = ["".join(chr(model_char(m, c)) for c in p) for p in pats]
+        text = " -o ".join("%s '%s'" % (k, p) for k, p in zip(kws, ps))
+        d = B.ctx.run_native([text], "debug")[0]
+        import re as _re
+        n_def = len(set(_re.findall(r"\(%lf3:match:(\d+) \(lambda", d.get("scheme", ""))))
+        if d.get("scheme") and n_def == 2:
+            rep.inconclusive.append("witness %r for shared matchers does not reproduce natively" % text)
+        else:
+            rep.violation("identifiers:symbolic:sharing", "%r: %d matcher definitions for two different patterns" % (text, n_def), dict(input=text, native_scheme=d.get("scheme", "")[:600]))
+    return n_prog
+
+
+def sym_uses(d):
+    if isinstance(d, Sym):
+        yield d.name
+    elif isinstance(d, list):
+        for x in d:
+            yield from sym_uses(x)
+
+
 def replay(ctx, path):
     import json
     rp = json.load(open(path))["replay"]
-    if "sexpr" in rp:
+    if "input" in rp:
+        d = ctx.run_native([rp["input"]], "debug")[0]
+        print("input=%r\n%s" % (rp["input"], d.get("scheme", "")[:700]))
+    elif "sexpr" in rp:
         d = ctx.run_native_trees([rp["sexpr"]])[0]
         print("tree=%s\n%s\nfinding: %s" % (rp["sexpr"], d.get("scheme", "")[:700], rp.get("finding")))
     return 1
